@@ -192,3 +192,11 @@ package net
 //@     invariant e.handlersMutex.lockw && e.handlers == at_lock(e.handlers)
 //@     invariant forall k int {e.handlers[k]} :: 0 <= k && k <= rangeindex && k < len(e.handlers) ==> e.handlers[k] == nil && (at_lock(e.handlers[k]) != nil ==> at_lock(e.handlers[k]).hclosed == 1 && at_lock(e.handlers[k]).consumer.chclosed)
 //@     invariant forall k int {e.handlers[k]} :: rangeindex < k && k < len(e.handlers) ==> e.handlers[k] == at_lock(e.handlers[k]) && (e.handlers[k] != nil ==> allocated(e.handlers[k]) && allocated(e.handlers[k].consumer) && e.handlers[k].hclosed == 0 && e.handlers[k].consumer != nil && !e.handlers[k].consumer.chclosed && e.handlers[k].hslot == k && e.handlers[k].consumer.chslot == k)
+
+// Abstract endpoint as seen by clients of the interface (no modelled state changes).
+//@ interface (e EndPoint) Close() (err error)
+//@   trusted
+//@   pure
+//@ interface (e EndPoint) AddHandler(f Filter, c Consumer, cl Closer) (result int)
+//@   trusted
+//@   pure
